@@ -346,6 +346,10 @@ def peel(e, casts=True):
             return e
 
 
+TRY_BRANCH_RESULT = "<std::result::Result as std::ops::Try>::branch"
+FROM_RESIDUAL_RESULT = "<std::result::Result as std::ops::FromResidual>::from_residual"
+
+
 def simplify(e):
     """Fold projections out of known aggregates: (agg{..} as V).k -> field k."""
     k = e[0]
@@ -355,6 +359,11 @@ def simplify(e):
         if b[0] == 'bin' and b[1].endswith("WithOverflow") and str(e[2]) == '0':
             return ('bin', b[1][:-len("WithOverflow")], b[2], b[3])
         inner = b
+        # `?` on a Result: (Try::branch(R) as Continue).0 == (R as Ok).0
+        if inner[0] == 'variant' and inner[2] == 'Continue' and str(e[2]) == '0':
+            br = peel(inner[1])
+            if br[0] == 'call' and br[1] == TRY_BRANCH_RESULT and br[2]:
+                return simplify(('field', ('variant', br[2][0], 'Ok'), e[2]))
         if inner[0] == 'variant':
             inner2 = inner[1]
             if inner2[0] == 'agg' and inner2[1] == 'adt' and inner2[2].endswith("::" + str(inner[2])):
@@ -372,7 +381,16 @@ def simplify(e):
     if k in ('ref', 'deref', 'discr'):
         return (k, simplify(e[1])) + tuple(e[2:])
     if k == 'call':
-        return (k, e[1], tuple(simplify(a) for a in e[2]), e[3])
+        args = tuple(simplify(a) for a in e[2])
+        # `?` on a Result, error side: from_residual((Try::branch(R) as Break).0) == Err(From::from((R as Err).0))
+        if e[1] == FROM_RESIDUAL_RESULT and len(args) == 1:
+            x = peel(args[0])
+            if x[0] == 'field' and str(x[2]) == '0' and x[1][0] == 'variant' and x[1][2] == 'Break':
+                br = peel(x[1][1])
+                if br[0] == 'call' and br[1] == TRY_BRANCH_RESULT and br[2]:
+                    pay = simplify(('field', ('variant', br[2][0], 'Err'), '0'))
+                    return ('agg', 'adt', 'std::result::Result::Err', (('0', pay),))
+        return (k, e[1], args, e[3])
     if k == 'bin':
         return (k, e[1], simplify(e[2]), simplify(e[3]))
     if k == 'un':
@@ -386,6 +404,34 @@ def simplify(e):
     if k == 'index':
         return (k, simplify(e[1]), simplify(e[2]) if isinstance(e[2], tuple) else e[2])
     return e
+
+
+_CMP_FACT = {('Lt', True): ('lt', 0, 1), ('Lt', False): ('le', 1, 0), ('Le', True): ('le', 0, 1), ('Le', False): ('lt', 1, 0),
+             ('Gt', True): ('lt', 1, 0), ('Gt', False): ('le', 0, 1), ('Ge', True): ('le', 1, 0), ('Ge', False): ('lt', 0, 1),
+             ('Eq', True): ('eq', 0, 1), ('Eq', False): ('ne', 0, 1), ('Ne', True): ('ne', 0, 1), ('Ne', False): ('eq', 0, 1)}
+
+
+def cmp_fact(e, lab):
+    """The order fact known on a switch edge, in canonical orientation: ('lt'|'le'|'eq'|'ne', a, b), i.e. a < b,
+    a <= b, ...; independent of how the test was spelled (`a < b` taken, `b > a` taken, `!(a >= b)`, `a >= b` not taken)."""
+    pe = peel(e, casts=False)
+    neg = False
+    while pe[0] == 'un' and pe[1] == 'Not':
+        neg = not neg
+        pe = peel(pe[2], casts=False)
+    if pe[0] != 'bin' or pe[1] not in ('Lt', 'Le', 'Gt', 'Ge', 'Eq', 'Ne') or not isinstance(lab, tuple):
+        return None
+    if lab[0] == 'otherwise':
+        t = True
+    elif lab[0] == 'case':
+        t = lab[1] != 0
+    else:
+        return None
+    if neg:
+        t = not t
+    k, i, j = _CMP_FACT[(pe[1], t)]
+    ops = (pe[2], pe[3])
+    return (k, ops[i], ops[j])
 
 
 def walk(e):
